@@ -816,14 +816,9 @@ func (vfs *OrefaFS) Rename(oldname, newname string) error {
 		return &os.LinkError{Op: op, Old: oldname, New: newname, Err: vfs.err.NotADirectory}
 	}
 
-	if (oChild.mode.IsDir() && nChildOk) || (!oChild.mode.IsDir() && nChildOk && nChild.mode.IsDir()) {
+	// Nothing can replace a directory (as os.Rename).
+	if nChildOk && nChild.mode.IsDir() {
 		err := vfs.err.FileExists
-
-		// A directory can't replace a file.
-		if !nChild.mode.IsDir() {
-			err = vfs.err.NotADirectory
-		}
-
 		if vfs.OSType() == avfs.OsWindows {
 			err = avfs.ErrWinAccessDenied
 		}
@@ -835,6 +830,16 @@ func (vfs *OrefaFS) Rename(oldname, newname string) error {
 	if oChild.mode.IsDir() &&
 		(oChild == oParent || strings.HasPrefix(nAbsPath, oAbsPath+string(vfs.PathSeparator()))) {
 		return &os.LinkError{Op: op, Old: oldname, New: newname, Err: vfs.err.InvalidArgument}
+	}
+
+	// A directory can't replace a file.
+	if oChild.mode.IsDir() && nChildOk {
+		err := vfs.err.NotADirectory
+		if vfs.OSType() == avfs.OsWindows {
+			err = avfs.ErrWinAccessDenied
+		}
+
+		return &os.LinkError{Op: op, Old: oldname, New: newname, Err: err}
 	}
 
 	// Renaming a file to another hard link of itself does nothing.
